@@ -380,6 +380,44 @@ pub fn run(ctx: &Ctx) -> Report {
     }
   }
   report.model_requests = model.requests;
+  // ---- standard error is a real terminal: what only a terminal sees (spinners, progress bars) is chatter too, and
+  // --quiet silences all of it on success
+  if ctx.replay.is_none() || super::replay_cases(ctx).map(|rc| rc.iter().any(|v| v.get("stderr_is_a_terminal").is_some())).unwrap_or(false) {
+    let subs: Vec<(&str, Vec<&str>)> = vec![
+      ("create-directory", vec!["torrent", "create", "--input", "tree", "--output", "new.torrent"]),
+      ("create-file", vec!["torrent", "create", "--input", "data", "--output", "new.torrent"]),
+      ("create-stdout", vec!["torrent", "create", "--input", "tree", "--output", "-"]),
+      ("verify", vec!["torrent", "verify", "--input", "t.torrent", "--content", "data"]),
+      ("show", vec!["torrent", "show", "--input", "t.torrent"]),
+      ("link", vec!["torrent", "link", "--input", "t.torrent"]),
+      ("piece-length", vec!["torrent", "piece-length"]),
+      ("completions", vec!["completions", "--shell", "fish"]),
+    ];
+    'outer: for (name, sub) in subs {
+      for quiet in [true, false] {
+        let sb = Sandbox::new(&ctx.work, "c18t");
+        sb.write("data", b"hello");
+        sb.write("t.torrent", &sample_torrent());
+        for i in 0..40 {
+          sb.write(&format!("tree/d{}/f{i}", i % 5), &vec![i as u8; 50_000]);
+        }
+        let mut args: Vec<&str> = if quiet { vec!["--quiet"] } else { vec![] };
+        args.extend(sub.iter().copied());
+        let Some(o) = crate::run::pty_run_fds(80, &sb.root, &ctx.imdl, &args, "2", &sb.path("stdout.bin")) else {
+          report.hit("skipped:no-pty-helper");
+          break 'outer;
+        };
+        let case = json!({"stderr_is_a_terminal": true, "scenario": name, "quiet": quiet});
+        report.case(Some(fnv_str(&case.to_string())));
+        report.hit("stderr:terminal");
+        if o.code != Some(0) {
+          report.fail("property", "stream-discipline", case, format!("exit status {:?} with standard error on a terminal", o.code));
+        } else if quiet && !o.stdout.is_empty() {
+          report.fail("property", "stream-discipline", case, format!("--quiet, success, and yet the terminal on standard error received {} bytes: {:?}", o.stdout.len(), String::from_utf8_lossy(&o.stdout[..o.stdout.len().min(60)])));
+        }
+      }
+    }
+  }
   // ---- standard output that cannot take the bytes: the reader has gone away, or the device is full. A failure, so exit
   // status 1 with a diagnostic: not a silent success, and not a death by signal (which gives neither 0 nor 1 and reports
   // nothing; a shell shows it as 128+13).
